@@ -252,6 +252,19 @@ func pathAlphabet() []string {
 			}
 		}
 	}
+	// decorated dot segments: what a normaliser applied after the validation (TrimSpace, Trim of
+	// control bytes, a cut at NUL) would turn into a climbing segment
+	for _, pad := range []string{" ", "\t", "\n", "\r\n", "\x00", "\u00a0", "\v"} {
+		for _, d := range []string{"..", "."} {
+			for _, v := range []string{pad + d, d + pad, pad + d + pad} {
+				add(v)
+				add(v + "/a")
+				add("a/" + v)
+				add(v + "/" + v)
+				add(v + "/victim.txt")
+			}
+		}
+	}
 	add("../../..")
 	add("../../../a")
 	add("../../../../a")
@@ -260,7 +273,7 @@ func pathAlphabet() []string {
 }
 
 func modeC07() {
-	res.Rule = "scripted hostile sender against the real receiver: for each of manifest.root, directory rel_path, file rel_path (manifest + FileBegin), item id and FileBegin.rel_path every string of a path alphabet (1-3 segments of {a,..,.,empty,sub,..a} joined by / or \\\\, relative and absolute, plus absolute paths into the jail), pairs root x rel_path / id / dir over a sub-alphabet, both root-directory modes, resume on and off; non-trivial = every run; distinct by attack"
+	res.Rule = "scripted hostile sender against the real receiver: for each of manifest.root, directory rel_path, file rel_path (manifest + FileBegin), item id and FileBegin.rel_path every string of a path alphabet (1-3 segments of {a,..,.,empty,sub,..a} joined by / or \\\\, relative and absolute, plus dot segments padded with blanks / control bytes / NUL / NBSP on either side, plus absolute paths into the jail), pairs root x rel_path / id / dir over a sub-alphabet, both root-directory modes, resume on and off; non-trivial = every run; distinct by attack"
 	st := newStats()
 	alpha := pathAlphabet()
 	jailAbs := []string{filepath.Join(scratch, "jail", "l1", "victim.txt"), filepath.Join(scratch, "jail", "l1", "l2", "newdir", "x")}
